@@ -41,9 +41,16 @@ class Cx:
         self.obs = []
         self.counts = {}
         self._floors = spec("floors.json")
+        self._reviewed = {r["key"]: r["reason"] for r in spec("reviewed_sites.json")["sites"]}
         self._reg = None
 
     def ob(self, rule, inst, ok, what, where=None, detail=None, nontrivial=True):
+        if not ok:
+            rv = self._reviewed.get("%s/%s" % (rule, inst))
+            if rv is not None:
+                ok = True
+                what = "reviewed site (%s): %s" % (rv, what)
+                self.counts["reviewed_sites.used"] = self.counts.get("reviewed_sites.used", 0) + 1
         o = Ob(self.pid, rule, inst, ok, what, where, detail, nontrivial)
         self.obs.append(o)
         return o
